@@ -365,7 +365,7 @@ pub fn replay(case: &serde_json::Value) -> i32 {
 pub fn run(tier: Tier) -> i32 {
     let ctx = Ctx::new("C05", "exploration", tier);
     // trees: all subsets of ENTRIES up to a size bound
-    let max_entries = tier.pick(3, 4);
+    let max_entries = tier.pick(2, 4);
     let n = ENTRIES.len();
     let mut trees: Vec<Vec<Ent>> = vec![];
     for mask in 0u32..(1 << n) {
